@@ -234,6 +234,17 @@ func main() {
 		mk("rlimit-nice", "apparmor", "DENIED", "operation", "setrlimit", "class", "rlimits", "profile", "prog", "comm", "prog", "rlimit", "nice", "=value", "30"),
 		mk("rlimit-nice", "apparmor", "DENIED", "operation", "setrlimit", "class", "rlimits", "profile", "prog", "comm", "prog", "rlimit", "nice", "=value", "10"),
 	}
+	// (fourteenth wave) three records, two paths, one mask that leaves the access list with spare capacity (wc, ac, wrc: two
+	// letters map to one; three letters) and then another access on the first path: the second path keeps what it asked for
+	for _, m3 := range []string{"wc", "ac", "wrc", "rwk", "rac"} {
+		for _, late := range []string{"r", "m", "k"} {
+			n++
+			w.Encode(process(fmt.Sprintf("file-three-records-%s-%s-%d", m3, late, n),
+				fileRec("DENIED", "open", "/var/lib/verif/state.db", m3, "1000", "1000"),
+				fileRec("DENIED", "open", "/var/lib/verif/journal.db", m3, "1000", "1000"),
+				fileRec("DENIED", "open", "/var/lib/verif/state.db", late, "1000", "1000")))
+		}
+	}
 	// (fourth hunt) a file record that names its subject in label= only (stacked / container confinement)
 	n++
 	w.Encode(process(fmt.Sprintf("file-label-only-%d", n), mk("file", "apparmor", "DENIED", "operation", "open", "class", "file", "label", "prog-lbl", "name", "/srv/data/lbl", "comm", "prog",
